@@ -30,6 +30,21 @@ theorem encHead_length_pos (mt n : Nat) : 1 ≤ (encHead mt n).length := by
   unfold encHead; split <;> (try split) <;> (try split) <;> (try split) <;> simp
 
 
+
+/-- an int64 written the way `encodeS` writes integers is read back by the typed decoder -/
+theorem decodeS_int64 (ok : CertOracle) (i : Int) (r : Bytes) (f d : Nat)
+    (hi : -9223372036854775808 ≤ i ∧ i ≤ 9223372036854775807) :
+    decodeS ok (f + 1) d (.int 64) ((if i ≥ 0 then encHead 0 i.toNat else encHead 1 (-1 - i).toNat) ++ r) = some (.int i, r) := by
+  by_cases h0 : i ≥ 0
+  · obtain ⟨ai, hd, _⟩ := decHead_encHead28 0 i.toNat r (by omega) (by omega)
+    simp only [h0, if_true, decodeS, hd]
+    have h1 : i.toNat < 2 ^ (64 - 1) := by omega
+    simp [h1]; omega
+  · obtain ⟨ai, hd, _⟩ := decHead_encHead28 1 (-1 - i).toNat r (by omega) (by omega)
+    simp only [h0, if_false, decodeS, hd]
+    have h1 : (-1 - i).toNat < 2 ^ (64 - 1) := by omega
+    simp [h1]; omega
+
 theorem encHead_first (mt n : Nat) : ∃ k t, k < 28 ∧ encHead mt n = UInt8.ofNat (mt * 32 + k) :: t := by
   unfold encHead
   split
@@ -135,15 +150,18 @@ theorem enc_notNull (g : Nat) (s : Schema) (v : Val) (b r : Bytes) (hn : s.never
     case wrapBytes =>
       cases v <;> simp [encodeS] at henc
       subst henc; rw [List.append_assoc]; exact isNullHead_encHead 2 _ _ (by omega)
+    case cert =>
+      cases v <;> simp [encodeS] at henc
+      all_goals (subst henc; rw [List.append_assoc]; exact isNullHead_encHead 2 _ _ (by omega))
 
 
 /-- encodings in the fragment are never empty -/
-theorem enc_pos : ∀ (g : Nat) (s : Schema) (v : Val) (b : Bytes), s.inFragment = true → encodeS g s v = some b → 1 ≤ b.length := by
+theorem enc_pos (ok : CertOracle) : ∀ (g : Nat) (s : Schema) (v : Val) (b : Bytes) (d : Nat), s.inFragment = true → conf ok g d s v = true → encodeS g s v = some b → 1 ≤ b.length := by
   intro g
   induction g with
-  | zero => intro s v b _ h; simp [encodeS] at h
+  | zero => intro s v b d _ _ h; simp [encodeS] at h
   | succ g ih =>
-    intro s v b hs henc
+    intro s v b d hs hconf henc
     have hh := fun mt n => encHead_length_pos mt n
     cases s <;> simp [Schema.inFragment] at hs
     case uint max => cases v <;> simp [encodeS] at henc; subst henc; exact hh _ _
@@ -194,32 +212,46 @@ theorem enc_pos : ∀ (g : Nat) (s : Schema) (v : Val) (b : Bytes), s.inFragment
     case ptr e =>
       cases v <;> simp [encodeS] at henc
       · subst henc; simp
-      · exact ih e _ b hs.1 henc
+      · simp only [conf] at hconf; exact ih e _ b d hs.1 hconf henc
     case raw =>
       cases v <;> simp [encodeS] at henc
       rename_i rb
       subst henc
       cases rb <;> simp
+    case cert =>
+      cases v <;> simp [encodeS] at henc
+      all_goals (subst henc; have := hh 2 ‹Bytes›.length; simp; omega)
+    case timestamp =>
+      cases v <;> simp [encodeS] at henc
+      rename_i z u
+      cases z <;> simp at henc <;> subst henc
+      · have := hh 6 1; simp; omega
+      · simp
+    case label =>
+      have hl : labelOK v = true := by cases v <;> simpa [conf] using hconf
+      have hb : b = encLabel v := by cases v <;> (simp [encodeS] at henc; exact henc.symm)
+      subst hb
+      exact encLabel_len_pos v hl
 
 /-! ### typed encodings are single well-formed items for the untyped decoder -/
 
-def WS (g : Nat) : Prop :=
+def WS (ok : CertOracle) (g : Nat) : Prop :=
   ∀ (s : Schema) (v : Val) (b r : Bytes) (dc dr F : Nat), s.inFragment = true → encodeS g s v = some b →
-    conf g dc s v = true → wconf g dr s v = true → b.length < 18446744073709551616 → 2 * b.length + 1 + s.ptrDepth ≤ F →
+    conf ok g dc s v = true → wconf g dr s v = true → b.length < 18446744073709551616 → 2 * b.length + 1 + s.ptrDepth ≤ F →
     ∃ x, decode F dr (b ++ r) = some (x, r)
 
-def WL (g : Nat) : Prop :=
+def WL (ok : CertOracle) (g : Nat) : Prop :=
   ∀ (e : Schema) (vs : List Val) (b r : Bytes) (dc dr F : Nat), e.inFragment = true → encodeList g e vs = some b →
-    confList g dc e vs = true → wconfList g dr e vs = true → b.length < 18446744073709551616 → 2 * b.length + 2 + e.ptrDepth ≤ F →
+    confList ok g dc e vs = true → wconfList g dr e vs = true → b.length < 18446744073709551616 → 2 * b.length + 2 + e.ptrDepth ≤ F →
     ∃ xs, decodeItems F dr vs.length (b ++ r) = some (xs, r)
 
-def WFld (g : Nat) : Prop :=
+def WFld (ok : CertOracle) (g : Nat) : Prop :=
   ∀ (fs : Fields) (vs : List Val) (cnt : Nat) (b r : Bytes) (dc dr F : Nat), fs.inFragment = true →
-    encodeFields g fs vs = some (cnt, b) → confFields g dc fs vs = true → wconfFields g dr fs vs = true →
+    encodeFields g fs vs = some (cnt, b) → confFields ok g dc fs vs = true → wconfFields g dr fs vs = true →
     b.length < 18446744073709551616 → 2 * b.length + 2 + fs.ptrDepth ≤ F →
     cnt ≤ fs.slots ∧ ∃ xs, decodeItems F dr cnt (b ++ r) = some (xs, r)
 
-theorem wL_step (g : Nat) (hS : WS g) (hL : WL g) : WL (g + 1) := by
+theorem wL_step (ok : CertOracle) (g : Nat) (hS : WS ok g) (hL : WL ok g) : WL ok (g + 1) := by
   intro e vs b r dc dr F he henc hconf hw hlen hF
   cases vs with
   | nil =>
@@ -237,7 +269,7 @@ theorem wL_step (g : Nat) (hS : WS g) (hL : WL g) : WL (g + 1) := by
         simp only [confList, Bool.and_eq_true] at hconf
         simp only [wconfList, Bool.and_eq_true] at hw
         simp only [List.length_append] at hlen hF
-        have hpos : 1 ≤ a.length := enc_pos g e v a he h1
+        have hpos : 1 ≤ a.length := enc_pos ok g e v a dc he hconf.1 h1
         obtain ⟨F', rfl⟩ : ∃ F', F = F' + 1 := ⟨F - 1, by omega⟩
         obtain ⟨x, d1⟩ := hS e v a (c ++ r) dc dr F' he h1 hconf.1 hw.1 (by omega) (by omega)
         obtain ⟨xs, d2⟩ := hL e vs c r dc dr F' he h2 hconf.2 hw.2 (by omega) (by omega)
@@ -245,7 +277,7 @@ theorem wL_step (g : Nat) (hS : WS g) (hL : WL g) : WL (g + 1) := by
 
 
 
-theorem wF_step (g : Nat) (hS : WS g) (hF : WFld g) : WFld (g + 1) := by
+theorem wF_step (ok : CertOracle) (g : Nat) (hS : WS ok g) (hF : WFld ok g) : WFld ok (g + 1) := by
   intro fs vs cnt b r dc dr F hfs henc hconf hw hlen hFu
   obtain ⟨F', rfl⟩ : ∃ F', F = F' + 1 := ⟨F - 1, by omega⟩
   cases fs with
@@ -290,7 +322,7 @@ theorem wF_step (g : Nat) (hS : WS g) (hF : WFld g) : WFld (g + 1) := by
             simp [h1, h2] at henc
             obtain ⟨rfl, rfl⟩ := henc
             simp only [List.length_append] at hlen hFu
-            have hpos := enc_pos g s v a hfs'.1 h1
+            have hpos := enc_pos ok g s v a dc hfs'.1 hconf.1 h1
             obtain ⟨x, d1⟩ := hS s v a (c ++ r) dc dr F' hfs'.1 h1 hconf.1 hw.1 (by omega) (by omega)
             obtain ⟨hc, xs, d2⟩ := hF rest vs n c r dc dr F' hfs'.2 h2 hconf.2 hw.2 (by omega) (by omega)
             exact ⟨by simp [Fields.slots]; omega, .cons x xs, by simp only [decodeItems, List.append_assoc, d1, d2]⟩
@@ -344,7 +376,7 @@ theorem wF_step (g : Nat) (hS : WS g) (hF : WFld g) : WFld (g + 1) := by
 
 
 
-theorem wS_step (g : Nat) (hS : WS g) (hL : WL g) (hF : WFld g) : WS (g + 1) := by
+theorem wS_step (ok : CertOracle) (g : Nat) (hS : WS ok g) (hL : WL ok g) (hF : WFld ok g) : WS ok (g + 1) := by
   intro s v b r dc dr F hs henc hconf hw hlen hFu
   obtain ⟨F', rfl⟩ : ∃ F', F = F' + 1 := ⟨F - 1, by omega⟩
   cases s with
@@ -546,9 +578,50 @@ theorem wS_step (g : Nat) (hS : WS g) (hL : WL g) (hF : WFld g) : WS (g + 1) := 
         subst henc
         have h2 := decode_fuel _ dr rb x [] hdq (F' + 1) (by simp; omega)
         exact ⟨x, by simpa using decode_append (F' + 1) dr rb r x [] h2⟩
+  | cert =>
+    cases v <;> try (simp [encodeS] at henc; done)
+    · simp [conf] at hconf
+    · rename_i der
+      simp [encodeS] at henc; subst henc
+      simp only [wconf, decide_eq_true_eq] at hw
+      obtain ⟨ai, hd⟩ := decHead_encHead 2 der.length (der ++ r) (by omega) (by simp [maxLen] at hw; omega)
+      refine ⟨.bstr der, ?_⟩
+      simp only [decode, List.append_assoc, hd]; simp; omega
+  | timestamp =>
+    cases v <;> try (simp [encodeS] at henc; done)
+    rename_i z u
+    simp only [conf, decide_eq_true_eq] at hconf
+    cases z with
+    | true =>
+      simp [encodeS] at henc; subst henc
+      exact ⟨.simple 22, by simp [decode, decHead]⟩
+    | false =>
+      simp only [wconf, Bool.false_or, decide_eq_true_eq] at hw
+      simp [encodeS] at henc; subst henc
+      obtain ⟨F'', rfl⟩ : ∃ F'', F' = F'' + 1 := ⟨F' - 1, by simp at hFu; have := encHead_length_pos 6 1; omega⟩
+      obtain ⟨ai, hd⟩ := decHead_encHead 6 1 ((if u ≥ 0 then encHead 0 u.toNat else encHead 1 (-1 - u).toNat) ++ r) (by omega) (by omega)
+      have hinner : ∃ x, decode (F'' + 1) (dr - 1) ((if u ≥ 0 then encHead 0 u.toNat else encHead 1 (-1 - u).toNat) ++ r) = some (x, r) := by
+        by_cases h0 : u ≥ 0
+        · obtain ⟨ai2, hd2⟩ := decHead_encHead 0 u.toNat r (by omega) (by omega)
+          exact ⟨.uint u.toNat, by simp [h0, decode, hd2]⟩
+        · obtain ⟨ai2, hd2⟩ := decHead_encHead 1 (-1 - u).toNat r (by omega) (by omega)
+          exact ⟨.nint (-1 - u).toNat, by simp [h0, decode, hd2]⟩
+      obtain ⟨x, hx⟩ := hinner
+      refine ⟨.tag 1 x, ?_⟩
+      simp only [List.append_assoc]
+      simp only [decode, hd, hx]
+      have : ¬ (dr = 0) := by omega
+      simp [this]
+  | label =>
+    have hl : labelOK v = true := by cases v <;> simpa [conf] using hconf
+    have hb : b = encLabel v := by cases v <;> (simp [encodeS] at henc; exact henc.symm)
+    subst hb
+    obtain ⟨hke, hks, _⟩ := label_facts v hl
+    rw [hke]
+    exact ⟨_, scalar_decode_raw (labelAny v) hks r (F' + 1) dr (by omega)⟩
   | _ => simp [Schema.inFragment] at hs
 
-theorem w_all (g : Nat) : WS g ∧ WL g ∧ WFld g := by
+theorem w_all (ok : CertOracle) (g : Nat) : WS ok g ∧ WL ok g ∧ WFld ok g := by
   induction g with
   | zero =>
     refine ⟨?_, ?_, ?_⟩
@@ -557,23 +630,23 @@ theorem w_all (g : Nat) : WS g ∧ WL g ∧ WFld g := by
     · intro fs vs cnt b r dc dr F _ henc; simp [encodeFields] at henc
   | succ g ih =>
     obtain ⟨hS, hL, hF⟩ := ih
-    exact ⟨wS_step g hS hL hF, wL_step g hS hL, wF_step g hS hF⟩
+    exact ⟨wS_step ok g hS hL hF, wL_step ok g hS hL, wF_step ok g hS hF⟩
 
 
 /-- the three statements proved together by induction on the encoder's fuel -/
 def RtS (ok : CertOracle) (g : Nat) : Prop :=
-  ∀ (s : Schema) (v : Val) (b r : Bytes) (d f : Nat), s.inFragment = true → encodeS g s v = some b → conf g d s v = true →
+  ∀ (s : Schema) (v : Val) (b r : Bytes) (d f : Nat), s.inFragment = true → encodeS g s v = some b → conf ok g d s v = true →
     b.length < 18446744073709551616 → 2 * b.length + 1 + s.ptrDepth ≤ f → decodeS ok f d s (b ++ r) = some (v, r) ∧ 1 ≤ b.length
 
 def RtL (ok : CertOracle) (g : Nat) : Prop :=
-  ∀ (e : Schema) (vs : List Val) (b r : Bytes) (d f : Nat), e.inFragment = true → encodeList g e vs = some b → confList g d e vs = true →
+  ∀ (e : Schema) (vs : List Val) (b r : Bytes) (d f : Nat), e.inFragment = true → encodeList g e vs = some b → confList ok g d e vs = true →
     b.length < 18446744073709551616 → 2 * b.length + 2 + e.ptrDepth ≤ f →
     decodeElems ok f d e vs.length (b ++ r) = some (vs, r) ∧ vs.length ≤ b.length
 
 def RtF (ok : CertOracle) (g : Nat) : Prop :=
   ∀ (fs : Fields) (vs : List Val) (cnt : Nat) (b r : Bytes) (d f : Nat), fs.inFragment = true → fs.omittables ≤ 1 →
     encodeFields g fs vs = some (cnt, b) →
-    confFields g d fs vs = true → b.length < 18446744073709551616 → 2 * b.length + 2 + fs.ptrDepth ≤ f →
+    confFields ok g d fs vs = true → b.length < 18446744073709551616 → 2 * b.length + 2 + fs.ptrDepth ≤ f →
     (cnt = fs.slots ∧ decodeFields ok f d fs false (b ++ r) = some (vs, r)) ∨
     (fs.omittables = 1 ∧ cnt + 1 = fs.slots ∧ decodeFields ok f d fs true (b ++ r) = some (vs, r))
 
@@ -915,7 +988,7 @@ theorem rtS_step (ok : CertOracle) (g : Nat) (hS : RtS ok g) (hL : RtL ok g) (hF
   | bstr e =>
     simp only [Schema.ptrDepth] at hf
     simp only [Schema.inFragment] at hs
-    have hconf' : conf g maxDepth e v = true := by
+    have hconf' : conf ok g maxDepth e v = true := by
       cases v <;> simpa [conf] using hconf
     cases h1 : encodeS g e v with
     | none => exfalso; cases v <;> simp [encodeS, h1] at henc
@@ -935,7 +1008,7 @@ theorem rtS_step (ok : CertOracle) (g : Nat) (hS : RtS ok g) (hL : RtL ok g) (hF
   | wrap e =>
     simp only [Schema.ptrDepth] at hf
     simp only [Schema.inFragment] at hs
-    have hconf' : conf g maxDepth e v = true := by
+    have hconf' : conf ok g maxDepth e v = true := by
       cases v <;> simpa [conf] using hconf
     cases h1 : encodeS g e v with
     | none => exfalso; cases v <;> simp [encodeS, h1] at henc
@@ -1004,7 +1077,7 @@ theorem rtS_step (ok : CertOracle) (g : Nat) (hS : RtS ok g) (hL : RtL ok g) (hF
       have hp := encHead_length_pos 6 m
       obtain ⟨f'', rfl⟩ : ∃ f'', f' = f'' + 1 := ⟨f' - 1, by omega⟩
       -- the wrapper's raw pass delimits the item
-      obtain ⟨x', dx⟩ := (w_all g).1 e x c r maxDepth (d - 1) f'' hs.1 h1 hce hwe (by omega) (by omega)
+      obtain ⟨x', dx⟩ := (w_all ok g).1 e x c r maxDepth (d - 1) f'' hs.1 h1 hce hwe (by omega) (by omega)
       obtain ⟨ai, hd, hai⟩ := decHead_encHead28 6 m (c ++ r) (by omega) hs.2
       have hraw : decode (f'' + 1) d (encHead 6 m ++ c ++ r) = some (.tag m x', r) := by
         simp only [decode, List.append_assoc, hd, dx]
@@ -1021,6 +1094,54 @@ theorem rtS_step (ok : CertOracle) (g : Nat) (hS : RtS ok g) (hL : RtL ok g) (hF
       refine ⟨?_, by simp; omega⟩
       simp only [decodeS, hraw, take_prefix, htyped]
       simp
+  | cert =>
+    cases v <;> try (simp [encodeS] at henc; done)
+    · simp [conf] at hconf
+    · rename_i der
+      simp [encodeS] at henc; subst henc
+      simp only [conf] at hconf
+      simp only [List.length_append] at hlen
+      obtain ⟨ai, hd, hai⟩ := decHead_encHead28 2 der.length (der ++ r) (by omega) (by omega)
+      refine ⟨?_, by have := encHead_length_pos 2 der.length; simp; omega⟩
+      simp only [decodeS, unwrapBytes, List.append_assoc, hd]
+      have : ¬ (ai ≥ 28) := by omega
+      simp [this, hconf]
+  | timestamp =>
+    simp only [Schema.ptrDepth] at hf
+    cases v <;> try (simp [encodeS] at henc; done)
+    rename_i z u
+    simp only [conf, decide_eq_true_eq] at hconf
+    cases z with
+    | true =>
+      have hu : u = 0 := hconf.1 rfl
+      subst hu
+      simp [encodeS] at henc; subst henc
+      refine ⟨?_, by simp⟩
+      simp [decodeS, decHead]
+    | false =>
+      simp [encodeS] at henc; subst henc
+      have hp := encHead_length_pos 6 1
+      simp only [List.length_append] at hf
+      obtain ⟨f'', rfl⟩ : ∃ f'', f' = f'' + 1 := ⟨f' - 1, by omega⟩
+      obtain ⟨ai, hd, hai⟩ := decHead_encHead28 6 1 ((if u ≥ 0 then encHead 0 u.toNat else encHead 1 (-1 - u).toNat) ++ r) (by omega) (by omega)
+      have hi := decodeS_int64 ok u r f'' maxDepth ⟨hconf.2.1, hconf.2.2⟩
+      refine ⟨?_, by simp; omega⟩
+      simp only [List.append_assoc]
+      simp only [decodeS, hd, hi]
+      have : ¬ (ai ≥ 28) := by omega
+      simp [this]
+  | label =>
+    have hl : labelOK v = true := by cases v <;> simpa [conf] using hconf
+    have hb : b = encLabel v := by cases v <;> (simp [encodeS] at henc; exact henc.symm)
+    subst hb
+    obtain ⟨hke, hks, hkl⟩ := label_facts v hl
+    have hpos := encLabel_len_pos v hl
+    have d1 := scalar_decode_raw (labelAny v) hks r f' d (by omega)
+    have a1 := scalar_decodeAny (labelAny v) hks [] f' maxDepth (by omega)
+    simp only [List.append_nil] at a1
+    refine ⟨?_, hpos⟩
+    rw [hke]
+    simp only [decodeS, d1, take_prefix, a1, hkl]
   | _ => simp [Schema.inFragment] at hs
 
 
@@ -1037,14 +1158,14 @@ theorem rt_all (ok : CertOracle) (g : Nat) : RtS ok g ∧ RtL ok g ∧ RtF ok g 
 
 /-- **decode ∘ encode = id on the fragment**, with any following bytes left untouched. -/
 theorem decodeS_encodeS (ok : CertOracle) (g : Nat) (s : Schema) (v : Val) (b r : Bytes) (d f : Nat)
-    (hs : s.inFragment = true) (henc : encodeS g s v = some b) (hconf : conf g d s v = true)
+    (hs : s.inFragment = true) (henc : encodeS g s v = some b) (hconf : conf ok g d s v = true)
     (hlen : b.length < 18446744073709551616) (hf : 2 * b.length + 1 + s.ptrDepth ≤ f) :
     decodeS ok f d s (b ++ r) = some (v, r) :=
   ((rt_all ok g).1 s v b r d f hs henc hconf hlen hf).1
 
 /-- `cbor.Unmarshal(cbor.Marshal(v)) = v` on the fragment. -/
 theorem unmarshalS_marshalS (ok : CertOracle) (s : Schema) (v : Val) (b : Bytes)
-    (hs : s.inFragment = true) (hp : s.ptrDepth ≤ 63) (henc : marshalS s v = some b) (hconf : conf 10000 maxDepth s v = true)
+    (hs : s.inFragment = true) (hp : s.ptrDepth ≤ 63) (henc : marshalS s v = some b) (hconf : conf ok 10000 maxDepth s v = true)
     (hlen : b.length < 18446744073709551616) : unmarshalS ok s b = some v := by
   have := decodeS_encodeS ok 10000 s v b [] maxDepth (2 * b.length + 64) hs henc hconf hlen (by omega)
   simp only [List.append_nil] at this
